@@ -453,6 +453,9 @@ class Run:
         for f in self.findings:
             if f.get("status") == "known" and f.get("history"):
                 self.behaviours[f"pinned-{f['name']}"] = f["history"]
+            elif f.get("status") == "fixed" and f.get("history") and f.get("pin"):
+                # the reproducer of a repaired defect stays in every run: should it return, it is reported again
+                self.behaviours[f"pinned-fixed-{f['name']}"] = f["history"]
 
     # ---- 3. driving
     def drive_all(self, respell_mode: str | None = None, only: list[str] | None = None) -> list[dict]:
